@@ -183,6 +183,16 @@ def embedded_check(pid, kind, accepted, guard, viol, cnt):
     # (ii) embedded occurrences
     clean = ['', ' ', 'x'] if kind == 'IPv4' else ['', ' ', '-']
     glue = sorted(set(guard[:2] + guard[-1:]))
+    if kind == 'IPv6':
+        # the access strings are written with the smallest digit of every cell; the same addresses with letter-initial, mixed-case and
+        # four-digit groups (which alternative of the pattern reports the address must not depend on how its groups are spelled)
+        variants = []
+        for s in accepted:
+            for f in (lambda g: g, lambda g: 'a' + g[1:], lambda g: 'F' * len(g), lambda g: (g + 'b0c')[:4], lambda g: 'ab0'[:max(1, len(g))] if len(g) < 3 else g):
+                v = ':'.join(f(g) if g else g for g in s.split(':'))
+                if v not in variants and ip_truth(kind, v):
+                    variants.append(v)
+        accepted = variants
     for s in accepted:
         for L in clean + glue:
             for Rt in clean + glue:
@@ -785,11 +795,15 @@ def run_C19(run):
                 ('tuple', f"Date(('dd/mm/yyyy', 'd-m-yy'), is_extensible={ext})", ['dd/mm/yyyy', 'd-m-yy']),
                 ('generator', f"Date((f for f in ['dd/mm/yyyy', 'd-m-yy']), is_extensible={ext})", ['dd/mm/yyyy', 'd-m-yy']),
                 ('iterator', f"Date(iter(['yyyy/m/d']), is_extensible={ext})", ['yyyy/m/d']),
+                ('reversed', f"Date(reversed(['yyyy/m/d', 'd-m-yy']), is_extensible={ext})", ['yyyy/m/d', 'd-m-yy']),
+                ('map', f"Date(map(str.lower, ['DD/MM/YYYY', 'D-M-YY']), is_extensible={ext})", ['dd/mm/yyyy', 'd-m-yy']),
+                ('filter', f"Date(filter(None, ['dd/mm/yyyy', 'd-m-yy']), is_extensible={ext})", ['dd/mm/yyyy', 'd-m-yy']),
+                ('dict-keys', f"Date({{'dd/mm/yyyy': 1, 'd-m-yy': 2}}.keys(), is_extensible={ext})", ['dd/mm/yyyy', 'd-m-yy']),
                 ('set', f"Date({{'dd/mm/yyyy', 'd-m-yy'}}, is_extensible={ext})", ['dd/mm/yyyy', 'd-m-yy'])):
             try:
                 pf = _mk(expr)
             except Exception as e:  # noqa: BLE001
-                if label in ('tuple', 'generator', 'iterator', 'set') and dsl_is_lib_exc(e):
+                if label in ('tuple', 'generator', 'iterator', 'set', 'reversed', 'map', 'filter', 'dict-keys') and dsl_is_lib_exc(e):
                     continue      # iterables other than a list are neither documented nor forbidden: refusing them is fine
                 run.add([V(f'C19|{label}|{ext}|raised', f"{expr[:80]} raised {type(e).__name__}: {e}", f"r = {expr}")])
                 continue
@@ -809,7 +823,7 @@ def run_C19(run):
     run.count('argument_form_candidates', n_forms)
     n_inv = 0
     for bad in ("'dd.mm.yyyy'", "''", "'DD/MM/YYYY'", "'Dd/mm/yyyy'", "'mm/yyyy/dd'", "'dd/mm/yyy'", "'d/m/y'", "'dd/mm-yyyy'", "'dd/mm/yyyy '",
-                "['dd/mm/yyyy', 'x']", "[5]", "['dd/mm/yyyy', None]", "[['dd/mm/yyyy']]", "[{}]", "[None, 'd/m/yy']", "[10, 'd/m/yy']", "[bytearray(b'd/m/yy')]", "['dd/mm/yyyy', 'D/M/YY']", "5", "('dd/mm/yyyy',)", "['DD-MM-YY']", "'yyyy/dd/mm'", "'dd mm yyyy'"):
+                "['dd/mm/yyyy', 'x']", "[5]", "['dd/mm/yyyy', None]", "[['dd/mm/yyyy']]", "[{}]", "[None, 'd/m/yy']", "[10, 'd/m/yy']", "[bytearray(b'd/m/yy')]", "['dd/mm/yyyy', 'D/M/YY']", "['dd/mm/yyyy', 'mm/yyyy/dd', None]", "[None, None]", "['x', 5, None]", "['dd/mm/yyyy', ['d/m/yy']]", "[('dd/mm/yyyy',)]", "5", "('dd/mm/yyyy',)", "['DD-MM-YY']", "'yyyy/dd/mm'", "'dd mm yyyy'"):
         expr = f"Date({bad})"
         n_inv += 1
         try:
